@@ -84,6 +84,14 @@ CHECKS.update({
 })
 
 CHECKS.update({
+    "C09": ("exploration",
+            "schedule enumeration and generation at lock granularity (patched parking_lot + controlled scheduler); round-trip oracle: strict recovery of the data directory after all calls returned == final live collection",
+            "1-2 writer threads (insert / overwrite / delete / metadata update / batch delete) against manual snapshots, with automatic snapshot triggers (interval 0-5), WAL rotation at 64-300 bytes and tombstone compaction at capacity 6-12, on the persistent HnswBackend. Part pairs: fixed prefix + every ordered pair of single-operation programs from {insert new, overwrite, delete, metadata update, batch delete, manual snapshot} (plus two writers against a double snapshot) x 12 configurations x EVERY single-preemption schedule. Part programs: generated prefix and writer programs, 0-2 manual snapshots, 1-4 generated preemptions. After the run: live dump; backend dropped; strict recover must succeed and equal the live dump.",
+            "Scheduling points are lock operations and API-call boundaries; file I/O runs un-interleaved between them. The live collection after quiescence is the reference (its own linearizability is C05's matter). fsync policy Never (durability under crashes is C01/C02).",
+            "DESIGN.md §3 C09, §2.5"),
+})
+
+CHECKS.update({
     "C14": ("exploration",
             "model-based property testing through the real server binary (reference count per tenant, admission oracle at the boundary) + racing client pairs followed by an admission probe",
             "Part sequence: one tenant with limit 3..6; generated Insert (new/existing/invalid), BulkInsert and BulkLoadHnsw (duplicates, existing+new, invalid items), Delete of present/absent ids, BatchDelete by ids (duplicates, foreign ids) and by filter, FlushHotTier, SIGTERM and SIGKILL restarts. After EVERY RPC: admission outcome vs model count, BulkQuery census == model, /usage vector_count == live count; at the end fill to the limit (each insert must be admitted) and one more must be RESOURCE_EXHAUSTED, so a drifted counter is visible through admission alone. Part race: two real clients race insert||delete, overwrite||batch-delete, bulk-insert||delete on the same ids for 150-650 rounds, then census + the same final probe.",
